@@ -25,6 +25,16 @@ pub fn plan(tier: &str, seed: u64) -> Vec<Batch> {
         for i in 0..nl {
             v.push(Batch { check: "C02".into(), phase: "enum".into(), uni: uni.clone(), seed, lo: i * nm, hi: (i + 1) * nm, fresh: false, tier: tier.into(), extra: Value::Null });
         }
+        // one attacker move *and* one resource fault (a verification step of the library that cannot
+        // be carried out), every pair of positions: emulated backend, lookups whose walk ends in ".."
+        if uni.no_openat2 {
+            let n = (fault_pair_lookups().len() * fault_pair_moves().len()) as u64;
+            for i in 0..n {
+                for shard in 0..4u64 {
+                    v.push(Batch { check: "C02".into(), phase: "enum-fault".into(), uni: uni.clone(), seed, lo: i, hi: i + 1, fresh: false, tier: tier.into(), extra: json!({"shard": shard, "shards": 4}) });
+                }
+            }
+        }
         for i in 0..flip {
             v.push(Batch { check: "C02".into(), phase: "flipflop".into(), uni: uni.clone(), seed, lo: i * 200, hi: (i + 1) * 200, fresh: false, tier: tier.into(), extra: Value::Null });
         }
@@ -33,6 +43,29 @@ pub fn plan(tier: &str, seed: u64) -> Vec<Batch> {
         }
     }
     v
+}
+
+pub fn fault_pair_lookups() -> Vec<OpSpec> {
+    let o = OpSpec::new;
+    vec![
+        o(Op::Resolve { path: "a/b/..".into(), nofollow: false }),
+        o(Op::Resolve { path: "a/b/c/../..".into(), nofollow: false }),
+        o(Op::OpenSubpath { path: "a/b/c/d/../..".into(), flags: libc::O_RDONLY | libc::O_DIRECTORY }),
+        o(Op::Resolve { path: "a/b/c/d/../../../../etc/passwd".into(), nofollow: false }).c(),
+    ]
+}
+
+pub fn fault_pair_moves() -> Vec<crate::world::Mutation> {
+    let mv = |src: &str, dst: &str| crate::world::Mutation::Rename { src: src.into(), dst: dst.into() };
+    vec![mv("root/a/b", "outside/landing/moved-b"), mv("root/a/b/c", "outside/landing/moved-c"), mv("root/a/b", "root (deleted)/b")]
+}
+
+fn fault_pair_case(uni: &UniCfg, li: usize, script: Vec<Dec>) -> Case {
+    let mut c = Case::new("C02", "enum-fault", uni.clone());
+    c.world = Some(attack::race_world());
+    c.jobs = vec![vec![fault_pair_lookups()[li].clone()]];
+    c.plan.script = script;
+    c
 }
 
 pub fn gen_swarm_case(seed: u64, idx: u64, uni: &UniCfg) -> Case {
@@ -152,6 +185,54 @@ pub fn run(u: &mut Universe, b: &Batch, st: &mut Stats) {
                     st.sample(json!({"phase": "swarm", "universe": b.uni.tag(), "case": case.with_explicit(&out.decisions).to_json(), "outcomes": out.records.iter().map(|r| r.outcome.class()).collect::<Vec<_>>()}));
                 }
             }
+            "enum-fault" => {
+                let nmv = fault_pair_moves().len();
+                let li = idx as usize / nmv;
+                let mv = fault_pair_moves()[idx as usize % nmv].clone();
+                let shard = b.extra["shard"].as_u64().unwrap_or(0) as usize;
+                let shards = b.extra["shards"].as_u64().unwrap_or(1) as usize;
+                let w = attack::race_world();
+                let mut atk = Attacker::new(&w);
+                let out0 = run_case(u, &fault_pair_case(&b.uni, li, vec![]), &mut atk, false);
+                if let Some(e) = &out0.harness_error {
+                    st.harness_errors.push(format!("enum-fault {idx}: {e}"));
+                    return;
+                }
+                let sites: Vec<(usize, i64)> = out0.trace.iter().filter(|e| e.lib && e.op == Some(0) && e.nr != crate::seam::HYPERCALL_NR && e.nr != libc::SYS_futex).map(|e| (e.step, e.nr)).collect();
+                // the fault lands within the next 32 calls after the move (quick: every fourth pair)
+                let stride = if b.tier == "thorough" { 1 } else { 4 };
+                let mut k = 0usize;
+                for (i1, (w1, _)) in sites.iter().enumerate() {
+                    for (i2, (w2, nr2)) in sites.iter().enumerate() {
+                        if i2 <= i1 || i2 > i1 + 32 {
+                            continue;
+                        }
+                        // the step numbers after the move may belong to other calls than in the
+                        // fault-free trace; what matters is "a resource fault somewhere later"
+                        for e in [libc::EMFILE, libc::ENOMEM] {
+                            if !crate::sup::fault_catalogue(*nr2).iter().any(|f| matches!(f, crate::sup::Fault::Errno(x) if *x == e || *x == libc::ENFILE)) {
+                                continue;
+                            }
+                            k += 1;
+                            if k % shards != shard || (k / shards) % stride != 0 {
+                                continue;
+                            }
+                            let case = fault_pair_case(&b.uni, li, vec![Dec { step: *w1, attack: vec![mv.clone()], ..Default::default() }, Dec { step: *w2, fault: Some(crate::sup::Fault::Errno(e)), ..Default::default() }]);
+                            let mut atk = Attacker::new(&w);
+                            let mut out = run_case(u, &case, &mut atk, false);
+                            if let Some(e) = &out.harness_error {
+                                st.harness_errors.push(format!("enum-fault {idx}@{w1},{w2}: {e}"));
+                                return;
+                            }
+                            st.count("enum_fault.pairs_covered", 1);
+                            eval(&case, &mut out, &atk, st);
+                            if u.poisoned {
+                                return;
+                            }
+                        }
+                    }
+                }
+            }
             "enum" => {
                 let li = (idx / nm) as usize;
                 let mi = (idx % nm) as usize;
@@ -244,7 +325,7 @@ pub fn finalise(tier: &str, seed: u64, res: coord::CheckResult) -> i32 {
         tier,
         seed,
         "exploration",
-        "one evaluation = one lookup during which the simulated attacker may mutate the tree before any trapped system call; phases: exhaustive single placement (race world: every lookup scenario x every catalogue mutation x every window), flip-flop pairs (mutation at w1, inverse at w2>w1, sampled), seeded swarm on generated worlds with decoys; non-trivial = at least one attacker mutation took effect strictly inside the lookup; distinct = distinct hash of (world, ops, explicit decision list)",
+        "one evaluation = one lookup during which the simulated attacker may mutate the tree before any trapped system call; phases: exhaustive single placement (race world: every lookup scenario x every catalogue mutation x every window), one attacker move plus one resource fault at every pair of positions (emulated backend, lookups ending in '..', the fault within the 32 calls after the move; quick: every fourth pair), flip-flop pairs (mutation at w1, inverse at w2>w1, sampled), seeded swarm on generated worlds with decoys; non-trivial = at least one attacker mutation took effect strictly inside the lookup; distinct = distinct hash of (world, ops, explicit decision list)",
         res,
         extra,
         vec![
